@@ -42,6 +42,7 @@ type fsState struct {
 	published []string            // names that came into existence by rename, in order
 	unlinked  []string            // names removed, in order
 	pending   map[string][]string // directory -> names published in it since its last fsync
+	guards    map[string]string   // final name -> file that must hold no unflushed writes when that name is published
 }
 
 // pendingAny reports names that were renamed into place but whose directory has not been fsynced since.
